@@ -73,7 +73,7 @@ def run(ctx):
                 toks = []
                 for sh in impl.parse_shapes(r.outtext):
                     toks += [('(' if x == 0 else ')' if x == 1 else x) for x in __import__('gen').flat(sh)]
-                d = hashlib.sha1('\x00'.join(toks).encode()).hexdigest()[:16]
+                d = hashlib.sha1('\x00'.join(e2e.norm_fresh(toks)).encode()).hexdigest()[:16]
                 if d != last[-1]['digest']:
                     problems.append('the output file does not parse back to the last accepted input')
         for msg in problems:
